@@ -111,4 +111,12 @@ def rule_location_copies(ctx):
                      where_of(model, LOCATION + ".__copy__"), "copy of a location shares state with the original or loses its coordinates")
 
 
-RULES = [rule_validate_row, rule_cursor, rule_location_copies]
+def rule_raw_rows_dispatch(ctx):
+    """O4.4: the rows that are validated are the rows of the source: Reader._raw_rows passes every row on unchanged (a row with surplus empty cells stays too long)."""
+    from .c17 import raw_rows_dispatch_table
+
+    ctx.res.minimum("O4.4", 1)
+    raw_rows_dispatch_table(ctx, "O4.4")
+
+
+RULES = [rule_validate_row, rule_cursor, rule_location_copies, rule_raw_rows_dispatch]
